@@ -185,9 +185,12 @@ package bbolt
 //@   ensures [metalock] db.metalock.held == old(db.metalock.held)
 //@   ensures [unregister] db.freelist != nil ==> calls("freelist.Interface.RemoveReadonlyTXID", db.freelist) == old(calls("freelist.Interface.RemoveReadonlyTXID", db.freelist)) + 1
 
+// dbpage(db, id): the page with the given id inside the current memory map (A-unsafe, A-os-mmap)
+//@ uninterp func dbpage(db *DB, id common.Pgid) *common.Page
+
 //@ func (*DB).page
 //@   trusted
-//@   ensures result != nil
+//@   ensures result != nil && result == dbpage(db, id)
 //@   modifies nothing
 
 //@ func (*DB).freepages
@@ -220,6 +223,7 @@ package bbolt
 //@   ensures [unlocked] old(tx.db) != nil && old(tx.writable) ==> !old(tx.db).rwlock.held && old(tx.db).rwtx == nil
 //@   ensures [flrollback] old(tx.db) != nil && old(tx.writable) ==> lastrollback == old(tx.meta.txid) && calls("freelist.Interface.Rollback", old(tx.db.freelist)) == old(calls("freelist.Interface.Rollback", tx.db.freelist)) + 1
 //@   ensures [reload] old(tx.db) != nil && old(tx.writable) && old(tx.db.data) != nil ==> calls("freelist.Interface.Reload", old(tx.db.freelist)) + calls("freelist.Interface.NoSyncReload", old(tx.db.freelist)) == old(calls("freelist.Interface.Reload", tx.db.freelist) + calls("freelist.Interface.NoSyncReload", tx.db.freelist)) + 1
+//@   ensures [reloadsrc] old(tx.db) != nil && old(tx.writable) && old(tx.db.data) != nil && calls("freelist.Interface.Reload", old(tx.db.freelist)) != old(calls("freelist.Interface.Reload", tx.db.freelist)) ==> lastreload == dbpage(old(tx.db), old(dbmeta(tx.db).freelist))
 //@   ensures [disk] unsynced == old(unsynced) && nwrites == old(nwrites)
 
 //@ func (*Tx).nonPhysicalRollback
@@ -304,3 +308,29 @@ package bbolt
 //@   ensures [durable] old(tx.db) != nil && old(tx.writable) && err == nil && !old(tx.db.NoSync) ==> unsynced == 0
 //@   ensures [metalast] err == nil ==> lastwriteoff == (old(tx.meta.txid) % 2) * old(tx.db.pageSize) && calls("(*Tx).writeMeta", tx) == old(calls("(*Tx).writeMeta", tx)) + 1 && calls("(*Tx).write", tx) == old(calls("(*Tx).write", tx)) + 1
 //@   ensures [nometaonerror] err != nil && calls("(*Tx).writeMeta", tx) == old(calls("(*Tx).writeMeta", tx)) ==> nwrites == old(nwrites) || calls("(*Tx).write", tx) == old(calls("(*Tx).write", tx)) + 1
+
+//@ func (*DB).beginRWTx
+//@   returns (t, err)
+//@   props C03 C10 C17 C02
+//@   requires db.readOnly || (!db.rwlock.held && !db.metalock.held)
+//@   requires !db.readOnly && db.opened && db.data != nil ==> db.meta0 != nil && db.meta1 != nil && (metavalid(db.meta0) || metavalid(db.meta1)) && dbmeta(db).txid < 18446744073709551615 && db.freelist != nil
+//@   ensures [readonly] db.readOnly ==> err == berrors.ErrDatabaseReadOnly && t == nil && calls("sync.(*Mutex).Lock", db.rwlock) == old(calls("sync.(*Mutex).Lock", db.rwlock))
+//@   ensures [notopen] !db.readOnly && !db.opened ==> err == berrors.ErrDatabaseNotOpen
+//@   ensures [failunlocked] err != nil ==> !db.rwlock.held || db.readOnly
+//@   ensures [failstate] err != nil ==> t == nil && db.rwtx == old(db.rwtx)
+//@   ensures [locked] err == nil ==> db.rwlock.held && db.rwtx == t && t != nil && t.writable && t.db == db && fresh(t)
+//@   ensures [txid] err == nil ==> t.meta != nil && t.meta.txid == old(dbmeta(db).txid) + 1
+//@   ensures [released] err == nil ==> calls("freelist.Interface.ReleasePendingPages", db.freelist) == old(calls("freelist.Interface.ReleasePendingPages", db.freelist)) + 1
+//@   ensures [metalock] db.readOnly || !db.metalock.held
+
+//@ func (*DB).beginTx
+//@   returns (t, err)
+//@   props C02 C03 C10
+//@   requires !db.metalock.held
+//@   requires db.opened && db.data != nil ==> db.meta0 != nil && db.meta1 != nil && (metavalid(db.meta0) || metavalid(db.meta1)) && dbmeta(db).txid < 18446744073709551615
+//@   ensures [metalock] !db.metalock.held
+//@   ensures [rlock] err == nil ==> db.mmaplock.rcount == old(db.mmaplock.rcount) + 1
+//@   ensures [norlock] err != nil ==> db.mmaplock.rcount == old(db.mmaplock.rcount) && t == nil
+//@   ensures [snapshot] err == nil ==> t != nil && fresh(t) && !t.writable && t.db == db && t.meta != nil && t.meta.txid == old(dbmeta(db).txid)
+//@   ensures [registered] err == nil && db.freelist != nil ==> lastreg == t.meta.txid && calls("freelist.Interface.AddReadonlyTXID", db.freelist) == old(calls("freelist.Interface.AddReadonlyTXID", db.freelist)) + 1
+//@   ensures [underlock] err == nil && db.freelist != nil ==> calls("sync.(*Mutex).Unlock", db.metalock) == old(calls("sync.(*Mutex).Unlock", db.metalock)) + 1
